@@ -79,6 +79,9 @@ def c18(ctx: Ctx):
     else:
         # D: the implementation-shaped model of the generator against the contract
         ctx.tlc("MC_C18", "MC_C18_pinned.cfg", expect_violation=True, label="D pinned-model counterexample")
+        # drift guard: the generator model without the repairs of F-C18-8, 9, 11 must be refuted by the contract
+        ctx.tlc("MC_C18", "MC_C18_unrepaired.cfg", expect_violation=True, workers=4, timeout=TLC_LIMIT,
+                label="D model without repairs 8/9/11 refuted")
         # F: enumerate types x option sets, with their value lists.  The seed picks which further base
         # gets the deep treatment (full wrapper set at two levels) next to the fixed ones.
         rot = ROTATE[ctx.seed % len(ROTATE)]
